@@ -107,7 +107,7 @@ func runBessel(c *fw.Ctx) {
 	dir = append(dir, vxPoint{2, 1e4}, vxPoint{-0.5, 0}, vxPoint{2.5, 3})
 	// witnesses first seen in sweeps
 	dir = append(dir, vxPoint{24, -5828708.299405402}, vxPoint{-16, -4686819.109409058}, vxPoint{-4.484888260252774, 8.257571924653318e-252},
-		vxPoint{389.9446435254067, 803.4331144174502})
+		vxPoint{389.9446435254067, 803.4331144174502}, vxPoint{-829.8648253731199, 1032.379186123548})
 	for _, v := range besselV() {
 		for _, x := range besselX(v) {
 			dir = append(dir, vxPoint{v, x})
